@@ -435,3 +435,46 @@ Example C16_example_value_numbers :
   Value.vx_norm = Some 2494%Z /\ Value.vx_trace 1 = Some 2494%Z /\ Value.vx_trace 2 = Some 2494%Z.
 Proof. exact ValueProofs.value_example_numbers. Qed.
 Print Assumptions C16_example_value_numbers.
+
+(* ---- single-site operator (partial; TTNDO/ValueTP.v) ---------------------------------------------------------------- *)
+From PTN Require TEBD.Trotter TTNDO.ValueTP.
+
+(* absorb_into_open_legs at the ket image of ANY node c of the state keeps the network a well-formed density-operator
+   network, hence trace_ttndo succeeds on it and closes it, for every tree and every root bond dimension.  PARTIAL with
+   respect to "single-site expectation value on the network = pure-state value": the value-level renaming step of
+   C16_trace_value with the operator atom and the redirected glue at c is missing (C16_tp1_state_value_partial below
+   is the pure-state half). *)
+Theorem C16_tp1_absorbed_closed_partial : forall (im : Contr.idmaps) (d s : Store.store) (r0 : nat) (ts : Closed.rt) (k : nat),
+  Value.ttndo_of im d s r0 ts k ->
+  forall c : nat, In c (Closed.rnodes ts) ->
+  forall D' : Store.store,
+  Trotter.absorb_open d (Contr.im_kid im c) [Store.wdim s (Closed.open_wire s c); Store.wdim s (Closed.open_wire s c)] = Some D' ->
+  Contr.wf_ttndo im D' r0 (Value.rmap (Contr.im_kid im) ts) /\
+  exists g, Contr.trace_ttndo im D' = Some g /\ Blocks.gaxes g = [] /\
+    Permutation.Permutation (Blocks.gatoms g) (Contr.tr_atoms im D' r0 (Closed.rnodes (Value.rmap (Contr.im_kid im) ts))) /\
+    Permutation.Permutation (Blocks.gbnd g) (Contr.tr_bnd im D' r0 (Closed.rnodes (Value.rmap (Contr.im_kid im) ts))) /\
+    Permutation.Permutation (Blocks.gglue g) (Contr.tr_glue im D' (Closed.rnodes (Value.rmap (Contr.im_kid im) ts))).
+Proof.
+  exact (fun im d s r0 ts k TO c Hc D' H =>
+           conj (ValueTP.wf_ttndo_absorbed im d s r0 ts k TO c Hc D' H) (ValueTP.absorbed_trace_closed im d s r0 ts k TO c Hc D' H)).
+Qed.
+Print Assumptions C16_tp1_absorbed_closed_partial.
+
+(* the pure-state half: the value of C04's <psi|O_c|psi> diagram (one factor on any node c, any tree, any state store) as
+   a flat sum over both copies of every edge wire, every ket-side open wire and the operator's output wire *)
+Theorem C16_tp1_state_value_partial : forall (R : Type) (zero one : R) (add mul : R -> R -> R),
+  Sem.comm_semiring zero one add mul ->
+  forall (woff aoff : nat) (s : Store.store) (tbl : nat -> list nat -> R),
+  InvSem.wfs s -> Store.next_wire s + 2 <= woff -> Store.next_atom s < aoff ->
+  forall ts : Closed.rt, Closed.wf_two s (TensorProd.conj_store woff aoff s) ts ->
+  Permutation.Permutation (Closed.rnodes ts) (Store.akeys (Store.nodes s)) ->
+  forall c : nat, In c (Closed.rnodes ts) ->
+  forall dd : nat, dd = Store.wdim s (Closed.open_wire s c) ->
+  exists g, TensorProd.tp_expectation woff aoff s [(c, [dd; dd])] = Some g /\ Blocks.gaxes g = [] /\
+    forall rho,
+      TensorProdBridge.gvalue R zero one add mul (Value.tp1_wiresS woff aoff s c) (Value.tp1_dimS woff aoff s c) tbl g rho
+      = Sem.sum_bnd R zero add (Value.tp1_dimS woff aoff s c) (Value.restS woff s ts ++ [Store.next_wire s])
+          (fun r => mul (ValueTP.prodS1 R zero one add mul woff aoff s tbl ts c r)
+                        (Sem.atoms_val R one mul (Value.tp1_wiresS woff aoff s c) tbl [Store.next_atom s] r)) rho.
+Proof. exact ValueTP.S_value_tp1. Qed.
+Print Assumptions C16_tp1_state_value_partial.
